@@ -428,6 +428,8 @@ def main(chk, replay=None):
         if answers.get(q2.name) is not None and got != answers[q2.name]:
             chk.violation('C13/query-order/%s-after-%s' % (q2.target, q1.target), {'first': q1.name, 'then': q2.name},
                           'same answer as on a fresh object', 'answer differs')
+    from harness import session
+    session.run(chk, 'C13')          # spec/Session.tla: the property inside whole analysis sessions
     chk.exhaustive = not chk.quick
 
 
